@@ -79,6 +79,22 @@ def limitNonzero (a : NApi.Adjustment) : Bool := limitOf a != some 0
 def hugeFresh (c0 : NApi.Container) (a : NApi.Adjustment) : Bool :=
   (hugeOf a).all fun h => !(c0.resources.hugepages.map (·.pageSize)).contains h.pageSize
 
+/-- **the guards on one plugin's adjustment for the view agreement**: `WellFormed` (as C03),
+    no memory limit 0, no hugepage size of the original container `c0` -/
+def viewGuard (c0 : NApi.Container) (a : NApi.Adjustment) : Bool :=
+  wellFormed a && limitNonzero a && hugeFresh c0 a
+
+abbrev ViewGuard (c0 : NApi.Container) (a : NApi.Adjustment) : Prop := viewGuard c0 a = true
+
+theorem ViewGuard.wf {c0 : NApi.Container} {a : NApi.Adjustment} (h : ViewGuard c0 a) : WellFormed a := by
+  unfold ViewGuard viewGuard at h; simp only [Bool.and_eq_true] at h; exact h.1.1
+theorem ViewGuard.limit {c0 : NApi.Container} {a : NApi.Adjustment} (h : ViewGuard c0 a) :
+    limitNonzero a = true := by
+  unfold ViewGuard viewGuard at h; simp only [Bool.and_eq_true] at h; exact h.1.2
+theorem ViewGuard.huge {c0 : NApi.Container} {a : NApi.Adjustment} (h : ViewGuard c0 a) :
+    hugeFresh c0 a = true := by
+  unfold ViewGuard viewGuard at h; simp only [Bool.and_eq_true] at h; exact h.2
+
 /-- what the ledger guarantees about ONE accepted adjustment against the view it was applied to:
     no key is set twice, and its hugepage sizes are new -/
 structure StepFresh (c : NApi.Container) (a : NApi.Adjustment) : Prop where
